@@ -192,6 +192,14 @@ def catalogue():
                                    {"o": ref("S", "ys"), "n": ref("S", "n"), "m": ref("R", "n")})],
                          "TOP", {"xs": val}))
 
+    # 9b. a splitting stage mapped over a typed map / an array only known at run time
+    for nm, val, t, mode in (("map_dynkeys_split", {"k1": [1, 2], "k2": [3, 4, 5]}, "map<int[]>", "map"),
+                             ("map_dynarr_split", [[1, 2], [3, 4, 5]], "int[][]", "array")):
+        P.append(program(nm, [], [S_const("G", "%s m" % t, {"m": val}), S_split("S")],
+                         [pipeline("TOP", "", "%s o" % ("map<int>" if mode == "map" else "int[]"),
+                                   [call("G"), call("S", binds={"xs": split(ref("G", "m"))}, mode=mode)],
+                                   {"o": ref("S", "n")})], "TOP", {}))
+
     # 10. preflight in the top pipeline and a sub-pipeline below it
     P.append(program("preflight", [], [stage("CHK", "int x", "", {}), S_echo("A"), S_echo("B")],
                      [pipeline("SUB", "int x", "int y", [call("A", binds={"x": self_("x")})],
@@ -261,6 +269,40 @@ def catalogue():
                           pipeline("TOP", "int[] ns", "int[][] o",
                                    [call("SUB", binds={"n": split(self_("ns"))}, mode="array")],
                                    {"o": ref("SUB", "ys")})], "TOP", {"ns": ns}))
+
+    # 14c. statically nested mapped calls over every combination of array and typed map,
+    #      the inner collection handed down unchanged
+    for nm, outer, inner, om, im in (("nest_arr_map", [1, 2], {"x": 10, "y": 20}, "array", "map"),
+                                      ("nest_map_arr", {"p": 1, "q": 2}, [10, 20], "map", "array"),
+                                      ("nest_arr_arr", [1, 2], [10, 20, 30], "array", "array")):
+        ot = "int[]" if om == "array" else "map<int>"
+        it = "int[]" if im == "array" else "map<int>"
+        rt = ("int" + ("[]" if im == "array" else "")) if False else None
+        inner_out = "int[]" if im == "array" else "map<int>"
+        if om == "array":
+            top_out = inner_out + "[]"
+        else:
+            top_out = "map<%s>" % inner_out
+        P.append(program(nm, [], [stage("ADD", "int a, int b", "string r", {"r": INST})],
+                         [pipeline("SUB", "int n, %s inner" % it, "%s rs" % ("string[]" if im == "array" else "map<string>"),
+                                   [call("ADD", binds={"a": self_("n"), "b": split(self_("inner"))}, mode=im)],
+                                   {"rs": ref("ADD", "r")}),
+                          pipeline("TOP", "%s outer, %s inner" % (ot, it),
+                                   "%s o" % (("string[]" if im == "array" else "map<string>") + "[]" if om == "array"
+                                             else "map<%s>" % ("string[]" if im == "array" else "map<string>")),
+                                   [call("SUB", binds={"n": split(self_("outer")), "inner": self_("inner")}, mode=om)],
+                                   {"o": ref("SUB", "rs")})], "TOP", {"outer": outer, "inner": inner}))
+
+    # 14d. map inside map (the results cannot be returned: maps of maps are not a type), with keys
+    #      whose encodings concatenate to the same text: (a, b/fork_c) and (a/fork_b, c)
+    P.append(program("nest_map_map", [], [stage("ADD", "int a, int b", "string r", {"r": INST})],
+                     [pipeline("SUB", "int n, map<int> inner", "int k",
+                               [call("ADD", binds={"a": self_("n"), "b": split(self_("inner"))}, mode="map")],
+                               {"k": self_("n")}),
+                      pipeline("TOP", "map<int> outer, map<int> inner", "map<int> o",
+                               [call("SUB", binds={"n": split(self_("outer")), "inner": self_("inner")}, mode="map")],
+                               {"o": ref("SUB", "k")})], "TOP",
+                     {"outer": {"a": 1, "a/fork_b": 2}, "inner": {"b/fork_c": 10, "c": 20}}))
 
     # 15. typed maps with keys that stress fork naming and journal routing
     for nm, keys in (("keys_suffix", ["a_b", "b"]), ("keys_encoded", ["a b", "a%20b"]),
